@@ -313,6 +313,120 @@ def check_path_search(rep: Report, prog: Program) -> None:
     rep.check("R05.4", "_find_path_recursive:base-case", okb, "start is end does not yield the identity hop (1, 0, end)", fi.where())
 
 
+def check_lifting(rep: Report, prog: Program) -> None:
+    """R05.6: _find_path_recursive searches between the units reduced by `exponent`
+    (= _reduce_dimension); every hop it returns from there on must be lifted back by
+    `** exponent` - also the hops of a sub-path found by the recursive call.
+    Small forward abstract interpretation over list values: EMPTY < LIFTED, RAW, MIXED."""
+    fi = prog.func("conversions._find_path_recursive")
+    fn = fi.node
+    E: Optional[str] = None
+    red_line = None
+    for n in ast.walk(fn):
+        if isinstance(n, ast.Assign) and isinstance(n.value, ast.Call) and ast.unparse(n.value.func) == "_reduce_dimension" \
+                and isinstance(n.targets[0], ast.Tuple) and isinstance(n.targets[0].elts[0], ast.Name):
+            E = n.targets[0].elts[0].id
+            red_line = n.lineno
+    if E is None:
+        raise AnalysisError("_find_path_recursive no longer reduces the units with _reduce_dimension (R05.6 anchor moved)")
+
+    def join(a: str, b: str) -> str:
+        if a == b:
+            return a
+        if a == "EMPTY":
+            return b
+        if b == "EMPTY":
+            return a
+        return "MIXED"
+
+    def lifted_tuple(t: ast.AST, env: Dict[str, str]) -> Optional[bool]:
+        if isinstance(t, ast.Name):
+            v = env.get("tuple:" + t.id)
+            return None if v is None else v == "LIFTED"
+        if isinstance(t, ast.Tuple) and t.elts:
+            f = t.elts[0]
+            if isinstance(f, ast.BinOp) and isinstance(f.op, ast.Pow) and isinstance(f.right, ast.Name) and f.right.id == E:
+                return True
+            if isinstance(f, ast.Constant):
+                return True      # the identity hop (1, 0, u) needs no lifting
+            return False
+        return None
+
+    def val(e: ast.AST, env: Dict[str, str]) -> str:
+        if isinstance(e, ast.List):
+            if not e.elts:
+                return "EMPTY"
+            r = "EMPTY"
+            for x in e.elts:
+                lt = lifted_tuple(x, env)
+                r = join(r, "LIFTED" if lt else "RAW")
+            return r
+        if isinstance(e, ast.Name):
+            return env.get(e.id, "RAW")
+        if isinstance(e, ast.Call):
+            f = ast.unparse(e.func)
+            if f in ("list", "tuple") and e.args:
+                return val(e.args[0], env)
+            if f == fi.name:
+                return "RAW"
+            return "RAW"
+        if isinstance(e, ast.BinOp) and isinstance(e.op, ast.Add):
+            return join(val(e.left, env), val(e.right, env))
+        if isinstance(e, (ast.ListComp, ast.GeneratorExp)):
+            lt = lifted_tuple(e.elt, env)
+            if lt:
+                return "LIFTED"
+            if isinstance(e.elt, ast.Name):
+                return val(e.generators[0].iter, env)
+            return "RAW"
+        if isinstance(e, ast.IfExp):
+            return join(val(e.body, env), val(e.orelse, env))
+        return "RAW"
+
+    returns: List[Tuple[ast.Return, str]] = []
+
+    def block(stmts: List[ast.stmt], env: Dict[str, str]) -> Dict[str, str]:
+        for st in stmts:
+            if isinstance(st, (ast.Assign, ast.AnnAssign)) and st.value is not None:
+                tg = st.targets if isinstance(st, ast.Assign) else [st.target]
+                for t in tg:
+                    if isinstance(t, ast.Name):
+                        if isinstance(st.value, ast.Tuple):
+                            lt = lifted_tuple(st.value, env)
+                            env["tuple:" + t.id] = "LIFTED" if lt else "RAW"
+                        else:
+                            env[t.id] = val(st.value, env)
+            elif isinstance(st, ast.If):
+                a = block(st.body, dict(env))
+                b = block(st.orelse, dict(env))
+                for k in set(a) | set(b):
+                    env[k] = join(a.get(k, env.get(k, "EMPTY")), b.get(k, env.get(k, "EMPTY"))) if (k in a and k in b) else (a.get(k) or b.get(k) or "RAW")
+            elif isinstance(st, (ast.For, ast.While)):
+                for _ in range(3):
+                    after = block(st.body, dict(env))
+                    for k in after:
+                        env[k] = join(env.get(k, "EMPTY"), after[k]) if k in env else after[k]
+            elif isinstance(st, ast.Return) and st.value is not None:
+                if red_line is not None and st.lineno > red_line:
+                    returns.append((st, val(st.value, env)))
+        return env
+    block(fn.body, {})
+    seen = set()
+    for st, v in returns:
+        if id(st) in seen:
+            continue
+        seen.add(id(st))
+        worst = v
+        for st2, v2 in returns:
+            if st2 is st and v2 not in ("EMPTY", "LIFTED"):
+                worst = v2
+        rep.check("R05.6", f"_find_path_recursive:return {ast.unparse(st.value)[:40]}", worst in ("EMPTY", "LIFTED"),
+                  f"`{ast.unparse(st)[:70]}` can return hops found between the units reduced by `{E}` without raising them to "
+                  f"`** {E}` ({worst}): the factor between powers of units is applied linearly", fi.where(st))
+    if not returns:
+        raise AnalysisError("_find_path_recursive: no return after the reduction")
+
+
 def check_declared(rep: Report) -> None:
     ev = evaluate()
     scales = [e for e in ev.edges if e.is_scale]
@@ -339,11 +453,14 @@ def run(rep: Report) -> None:
     rep.rule("R05.3", "every return of convert is Quantity(<magnitude>, <the requested unit, unmodified>)", floor=1)
     rep.rule("R05.4", "path search: both tables read in one direction, recursion from the intermediate to end, hops ordered "
              "start -> end, direct hit and base case return single hops", floor=5)
+    rep.rule("R05.6", "every hop returned by the path search after the dimension reduction is lifted by ** exponent, including "
+             "the hops of a recursively found sub-path", floor=2)
     rep.rule("R05.5", "declared ratios are positive; scale units (non-zero offsets) are leaves of the declared graph", floor=200)
     check_equate(rep, prog, resolver)
     check_translate(rep, prog, resolver)
     check_convert(rep, prog)
     check_path_search(rep, prog)
+    check_lifting(rep, prog)
     check_declared(rep)
     rep.not_decided += ["that there-and-back and via-intermediate agree numerically (needs the planner to choose valid paths, "
                         "C04, and consistent data, C09)", "exponent handling of multi-hop paths between powers of units (planner heuristics, C04)"]
